@@ -981,6 +981,7 @@ package weshnet
 //@   ghostset keySeen(m) := device.hasKnownChainKey
 //@   ghostset parkedU(m) := ite(device.hasKnownChainKey, old(parkedU(m)), old(parkedU(m)) + 1)
 //@   at (*PriorityQueue[T]).Add requires [C08.park.under-lock] locked(addr(caller_m.muDeviceCaches)) && !caller_device.hasKnownChainKey
+//@   at read groupCache.hasKnownChainKey requires [C08.park.flag-read-under-lock] locked(addr(m.muDeviceCaches))
 //@   ensures [C08.park.iff-unknown] (result <==> !device.hasKnownChainKey) && device.hasKnownChainKey == old(device.hasKnownChainKey)
 //@   ensures [C08.park.queued] result ==> hsize(device.queue) == old(hsize(device.queue)) + 1 && hbag(device.queue) == store(old(hbag(device.queue)), message, old(hbag(device.queue))[message] + 1) && padds == old(padds) + 1
 //@   ensures [C08.park.untouched] !result ==> hsize(device.queue) == old(hsize(device.queue)) && hbag(device.queue) == old(hbag(device.queue)) && padds == old(padds)
@@ -1006,6 +1007,7 @@ package weshnet
 //@   # the flag of a new cache is what the secret store says in the very critical section that publishes the cache: a registration
 //@   # that runs before it finds no cache (and the flag is then read after the key is known), one that runs after it finds the cache
 //@   at (berty.tech/weshnet/v2/pkg/secretstore.SecretStore).IsChainKeyKnownForDevice requires [C08.lookup.key-read-under-lock] locked(addr(caller_m.muDeviceCaches))
+//@   at read groupCache.hasKnownChainKey requires [C08.lookup.flag-read-under-lock] locked(addr(m.muDeviceCaches))
 //@   ensures [C08.lookup.single-section] lockgen(addr(m.muDeviceCaches)) == old(lockgen(addr(m.muDeviceCaches))) + 1
 //@   ghostset droppedU(m) := ite(device == nil, old(droppedU(m)) + 1, old(droppedU(m)))
 //@   ensures [C08.lookup.flag] ret0 != nil ==> ret1 == ret0.hasKnownChainKey && keySeen(m) == ret1 && has(m.deviceCaches, $DK) && m.deviceCaches[$DK] == ret0 && gcacheOK(ret0)
@@ -1042,6 +1044,7 @@ package weshnet
 //@   requires msOK(m) && unlocked(addr(m.muDeviceCaches)) && unlocked(addr(m.messagesQueue.mu))
 //@   modifies lockstate(addr(m.muDeviceCaches)), lockgen(addr(m.muDeviceCaches)), $RD.hasKnownChainKey
 //@   at (berty.tech/weshnet/v2/pkg/secretstore.SecretStore).IsChainKeyKnownForDevice requires [C08.register.key-read-under-lock] locked(addr(caller_m.muDeviceCaches))
+//@   at write groupCache.hasKnownChainKey requires [C08.register.flag-written-under-lock] locked(addr(m.muDeviceCaches))
 //@   ensures [C08.register.single-section] lockgen(addr(m.muDeviceCaches)) == old(lockgen(addr(m.muDeviceCaches))) + 1
 //@   modifies hbag($RD.queue), hsize($RD.queue), $RD.queue.items, lockstate(addr($RD.queue.muMessages)), ptrace, pcalls, pcberrs
 //@   modifies lseq(m.messagesQueue.list), llen(m.messagesQueue.list), lockstate(addr(m.messagesQueue.mu)), sends(m.messagesQueue.signal)
